@@ -204,6 +204,10 @@ def run(ctx):
 
         res.rules["G-GROUPBY"] = "records are grouped by time only after sorting by time (itertools.groupby merges consecutive items only)"
         check_groupby_sorted(ctx, res, "TemporalHypergraph.subhypergraph")
+    with res.guard("G-GROUPBY in the matrix builders"):
+        from ..lints import check_groupby_in_file
+
+        check_groupby_in_file(ctx, res, "hypergraphx/linalg/linalg.py")
     # ---- T-SNAP
     with res.guard("T-SNAP"):
         for d in ("linalg.temporal_adjacency_matrix", "linalg.temporal_adjacency_matrix_by_order"):
